@@ -51,7 +51,7 @@ CLAIMED["C13"] = ("exploration", "deviation-bounded exhaustive enumeration of a 
 CLAIMED["C12"] = ("exploration", "deviation-bounded exhaustive enumeration of the model family (every single deviation + named pairs; thorough all compatible pairs) crossed with all ten INP flow units and both INP versions; two write/read cycles per case compared attribute by attribute and as text",
     "every model x unit system x version of the bound is written with write_inpfile and read back; elements, connectivity, attributes, patterns, curves, demands, sources, options, tags, vertices, controls and rules are compared keyed by name within the precision of the written tokens; the second cycle must be a fixpoint (model and text)",
     "tolerance 1e-5 relative + field quanta (see assumptions in the evidence file); WNTR-only settings listed in the statement are not compared")
-CLAIMED["C16"] = ("fault_enumeration", "exhaustive single-fault enumeration: every nonlinear solve k of 8 recorded fault-free runs x 4 fault kinds (iteration limit, singular Jacobian early/late, line-search failure) x convergence_error x backup solver {none, succeeds, fails}, plus trial-limit faults; thorough adds all fault pairs and 30-min steps",
+CLAIMED["C16"] = ("fault_enumeration", "exhaustive single-fault enumeration: every nonlinear solve k of 8 recorded fault-free runs x 6 fault kinds (iteration limit with and without line search, singular Jacobian early/late, line-search failure) x convergence_error x backup solver {none, succeeds, fails}, plus trial-limit faults; thorough adds all fault pairs and 30-min steps",
     "each fault is injected into the k-th call of the real NewtonSolver.solve so that the library's own error paths run; every execution is judged for termination, table shape (one increasing integer index on the report grid, one column per element, finite), RuntimeError vs warning + error_code, and equality of the reported prefix with the fault-free run",
     "faults are injected from outside (wrapped solver entry points), not by making the physics infeasible; termination only within a 60 s horizon per execution")
 CLAIMED["C04"] = ("exploration", "exhaustive enumeration of all single time/clock-time controls and rules x start_clocktime x hydraulic step x rule step, and of all sets of two (thorough: all CLOSED x OPEN pairs, selected triples) on one target; oracle = event-timeline reference model cross-validated against EPANET 2.2 (ctypes, stepped with ENrunH/ENnextH) on every case",
